@@ -46,6 +46,80 @@ func phiIsMax(v ssa.Value) (x, y ssa.Value, ok bool) {
 	return nil, nil, false
 }
 
+// returnsMax: helper h returns max(X, Y): an If comparing X and Y whose two successors each return
+// one of them, the larger one. X and Y are values of the helper (fields of its parameters).
+func returnsMax(h *ssa.Function) (x, y ssa.Value, ok bool) {
+	for _, b := range h.Blocks {
+		if len(b.Instrs) == 0 {
+			continue
+		}
+		iff, isIf := b.Instrs[len(b.Instrs)-1].(*ssa.If)
+		if !isIf {
+			continue
+		}
+		bo, isB := iff.Cond.(*ssa.BinOp)
+		if !isB {
+			continue
+		}
+		retOf := func(sb *ssa.BasicBlock) ssa.Value {
+			if len(sb.Instrs) == 0 {
+				return nil
+			}
+			if ret, isR := sb.Instrs[len(sb.Instrs)-1].(*ssa.Return); isR && len(ret.Results) == 1 {
+				return ret.Results[0]
+			}
+			return nil
+		}
+		t, f := retOf(b.Succs[0]), retOf(b.Succs[1])
+		if t == nil || f == nil {
+			continue
+		}
+		big, small := bo.X, bo.Y
+		switch bo.Op {
+		case token.GTR, token.GEQ:
+		case token.LSS, token.LEQ:
+			big, small = bo.Y, bo.X
+		default:
+			continue
+		}
+		if sameValOrField(t, big) && sameValOrField(f, small) {
+			nret := 0
+			for _, rb := range h.Blocks {
+				if _, isR := rb.Instrs[len(rb.Instrs)-1].(*ssa.Return); isR {
+					nret++
+				}
+			}
+			if nret == 2 {
+				return big, small, true
+			}
+		}
+	}
+	return nil, nil, false
+}
+
+func sameValOrField(a, b ssa.Value) bool {
+	if sameVal(a, b) {
+		return true
+	}
+	fa, ok1 := a.(*ssa.Field)
+	fb, ok2 := b.(*ssa.Field)
+	return ok1 && ok2 && fa.Field == fb.Field && fa.X == fb.X
+}
+
+// fieldValueIs: v reads field f (a load through a field address, or the field of a struct value).
+func fieldValueIs(v ssa.Value, f *types.Var) bool {
+	if f == nil {
+		return false
+	}
+	if isFieldLoadOf(v, f) {
+		return true
+	}
+	if fv, ok := stripConvNoLook(v).(*ssa.Field); ok {
+		return fieldOfField(fv) == f
+	}
+	return false
+}
+
 // sameVal: identical SSA values, or two loads of the same field through the same base
 // (go/ssa does no CSE).
 func sameVal(a, b ssa.Value) bool {
@@ -282,6 +356,17 @@ func ruleReaderWindow(c *Ctx, r *Report, prefix string) {
 					arg := call.Call.Args[0]
 					if lt, through := theCtx.lookThrough(arg); through {
 						arg = lt
+					}
+					if hc, isCall := call.Call.Args[0].(*ssa.Call); isCall && !okMax {
+						// a new helper that returns the larger of the two capacities
+						if h := hc.Call.StaticCallee(); h != nil && theCtx.IsNew(h) {
+							if x, y, isMax := returnsMax(h); isMax {
+								fCfgDC := c.Field("lzma", "ReaderConfig.DictCap")
+								if (fieldValueIs(x, fHDC) && fieldValueIs(y, fCfgDC)) || (fieldValueIs(y, fHDC) && fieldValueIs(x, fCfgDC)) {
+									okMax = true
+								}
+							}
+						}
 					}
 					if x, y, isMax := phiIsMax(arg); isMax {
 						// one side is the header's (clamped) dictCap, the other the configured DictCap
